@@ -711,14 +711,26 @@ fn nopanic_phase(thorough: bool) -> Phase {
                 guard(|| {
                     let a = pw.evaluate(x1);
                     let b: Vec<f64> = pw.evaluate_v(vec![x1, x2]).collect();
-                    (a, b.len())
+                    // the other ways of draining the iterator (internal iteration) must not panic either
+                    let c = pw.evaluate_v(vec![x1, x2]).count();
+                    let mut d = 0usize;
+                    pw.evaluate_v(vec![x1, x2]).for_each(|_| d += 1);
+                    let e = pw.evaluate_v(vec![x1, x2]).fold(0usize, |n, _| n + 1);
+                    let f = pw.evaluate_v(vec![x1, x2]).last().is_some() as usize + pw.evaluate_v(vec![x2, x1]).map(|y| y.to_bits()).max().is_some() as usize;
+                    (a, if c == 2 && d == 2 && e == 2 && f == 2 { b.len() } else { 99 })
                 })
             } else {
                 let pw = poly3_pw(ends);
                 guard(|| {
                     let a = pw.evaluate(x1);
                     let b: Vec<f64> = pw.evaluate_v(vec![x1, x2]).collect();
-                    (a, b.len())
+                    // the other ways of draining the iterator (internal iteration) must not panic either
+                    let c = pw.evaluate_v(vec![x1, x2]).count();
+                    let mut d = 0usize;
+                    pw.evaluate_v(vec![x1, x2]).for_each(|_| d += 1);
+                    let e = pw.evaluate_v(vec![x1, x2]).fold(0usize, |n, _| n + 1);
+                    let f = pw.evaluate_v(vec![x1, x2]).last().is_some() as usize + pw.evaluate_v(vec![x2, x1]).map(|y| y.to_bits()).max().is_some() as usize;
+                    (a, if c == 2 && d == 2 && e == 2 && f == 2 { b.len() } else { 99 })
                 })
             };
             cx.evals(3);
